@@ -29,6 +29,10 @@ type LRU struct {
 	evictList *list.List
 	items     map[interface{}]*list.Element
 	onEvict   EvictCallback
+	// inUse, if set, tells whether a value must stay in the cache although it is the oldest one:
+	// such items are passed over when room is made, and the cache exceeds its size while
+	// there is nothing else to evict.
+	inUse func(value interface{}) bool
 }
 
 // entry is used to hold a value in the evictList
@@ -197,9 +201,25 @@ func (c *LRU) Resize(size int) (evicted int) {
 
 // removeOldest removes the oldest item from the cache.
 func (c *LRU) removeOldest() {
+	if c.inUse != nil {
+		c.removeOldestUnused()
+		return
+	}
 	ent := c.evictList.Back()
 	if ent != nil {
 		c.removeElement(ent)
+	}
+}
+
+// removeOldestUnused brings the cache back to its size by removing the oldest items that are not
+// in use; the item at the front (the one just added) is kept in any case.
+func (c *LRU) removeOldestUnused() {
+	for ent := c.evictList.Back(); ent != nil && ent != c.evictList.Front() && c.evictList.Len() > c.size; {
+		prev := ent.Prev()
+		if kv, ok := ent.Value.(*entry); !ok || !c.inUse(kv.value) {
+			c.removeElement(ent)
+		}
+		ent = prev
 	}
 }
 
